@@ -275,3 +275,141 @@ def c19_executions(tier, seed):
         traces.append(run({'rx_routes': rx, 'tx_routes': tx}, steps))
         metas.append({'flags': sorted(n for (n, v) in F.items() if fl2 & v), 'report_to': rpt, 'outcome': outcome})
     return traces, metas
+
+
+# ---------------------------------------------------------------------------- C05
+def envelope(dest, src, flags, crc, ext, total, off):
+    ''' Size of a fragment bundle with empty payload, by the independent writer. '''
+    return len(mk(src=src, dest=dest, flags=flags, crc=crc, ext=ext, frag=(off, total), pay=b'', ts=(5000, 1)))
+
+
+def c05_cases(tier, rnd):
+    lens = set()
+    for centre in (24, 256):
+        lens.update(range(centre - 3, centre + 3))
+    lens.update([0, 1, 5, 40, 1000, 65534, 65535, 65536, 65537])
+    if tier == 'thorough':
+        for centre in (24, 256, 65536):
+            lens.update(range(centre - 12, centre + 12))
+        lens.update([70000, 200000])
+    ext_sets = {
+        'none': [],
+        'hop': [hop_count(2, 30, 1)],
+        'repl': [unknown(3, 2, flags=1), hop_count(2, 30, 1)],
+        'mixed': [unknown(7, 1, flags=0), unknown(3, 2, flags=1), prev_node(4, 'dtn://p/')],
+    }
+    cases = []
+    for total in sorted(lens):
+        for (ename, ext) in ext_sets.items():
+            for crc in (0, 1, 2):
+                for mode in ('send', 'forward'):
+                    cases.append((total, ename, ext, crc, mode))
+    if tier == 'quick':
+        cases = rnd.sample(cases, 150)
+    return cases
+
+
+def c05_executions(tier, seed):
+    rnd = random.Random(seed * 23 + 5)
+    traces, metas = [], []
+    for (k, (total, ename, ext, crc, mode)) in enumerate(c05_cases(tier, rnd)):
+        src = NODE + 'app' if mode == 'send' else 'dtn://src/app'
+        dest = 'dtn://other/svc'
+        flags = rnd.choice([0, 0, 0, F['RCVREP'] | F['FWDREP'] | F['DELREP']])
+        special = rnd.choice(['frag', 'frag', 'frag', 'frag', 'fits', 'nofrag', 'isfrag', 'impossible'])
+        pay = payload(total, k)
+        env = envelope(dest, src, flags, crc, ext, total, max(total - 1, 0))
+        whole = len(mk(src=src, dest=dest, flags=flags, crc=crc, ext=ext, pay=pay, ts=(5000 + k, 1)))
+        # keep the number of fragments small: per-fragment budget at least total/30
+        slack_choices = [1, 2, 3, 9, 23, 24, 25, 100, 255, 256, 257, 3000]
+        slack = rnd.choice([s for s in slack_choices if s * 30 >= total] or [max(1, total // 12)])
+        frag = None
+        if special == 'fits':
+            mtu = whole + rnd.choice([0, 1, 50])
+        elif special == 'impossible':
+            mtu = rnd.choice([env - 1, env - 5, 10, env])
+        elif special == 'nofrag':
+            flags |= F['NOFRAG']
+            mtu = env + slack
+        elif special == 'isfrag':
+            frag = (7, total + 20)
+            mtu = env + slack
+        else:
+            mtu = env + slack
+        octets = mk(src=src, dest=dest, rpt=rnd.choice(['dtn:none', 'dtn://rpt/r']), flags=flags, crc=crc, ext=ext,
+                    pay=pay, ts=(5000 + k, 1), frag=frag)
+        rx = [('dtn://other/', 'forward')]
+        tx = [('dtn://other/', 'dtn://other/', mtu), ('dtn://rpt/', 'dtn://rpt/', None)]
+        if mode == 'send':
+            steps = [('send', octets, {'expect_error': True}), ('idle',)]
+        else:
+            steps = [('recv', octets, {'note': special}), ('idle',)]
+        traces.append(run({'rx_routes': rx, 'tx_routes': tx}, steps))
+        metas.append({'mode': mode, 'total': total, 'mtu': mtu, 'envelope': env, 'whole': whole, 'ext': ename,
+                      'crc': crc, 'case': special, 'flags': flags})
+    return traces, metas
+
+
+# ---------------------------------------------------------------------------- C06
+def cuts_for(total, style, rnd):
+    ''' [(off, len)] covering [0,total): uniform, uneven, or with overlapping extra pieces. '''
+    if style == 'uniform':
+        n = rnd.choice([2, 3, 4])
+        size = -(-total // n)
+        out = [(o, min(size, total - o)) for o in range(0, total, size)]
+    elif style == 'uneven':
+        points = sorted(rnd.sample(range(1, total), min(rnd.choice([1, 2, 3]), total - 1)))
+        edges = [0] + points + [total]
+        out = [(edges[i], edges[i + 1] - edges[i]) for i in range(len(edges) - 1)]
+    else:
+        out = cuts_for(total, 'uneven', rnd)
+        for _ in range(rnd.choice([1, 2])):
+            o = rnd.randint(0, total - 2)
+            out.append((o, rnd.randint(1, total - o)))
+    return out
+
+
+def c06_executions(tier, seed):
+    rnd = random.Random(seed * 29 + 6)
+    traces, metas = [], []
+    nruns = 180 if tier == 'quick' else 4000
+    for k in range(nruns):
+        nb = rnd.choice([1, 2, 2])
+        bundles = []
+        orig = {}
+        for j in range(nb):
+            total = rnd.choice([2, 3, 5, 8, 13, 40] if k % 7 else [40, 120, 300])
+            pay = payload(total, k * 3 + j)
+            # bundles differ in source or creation timestamp only
+            src = 'dtn://src/app' if (j == 0 or rnd.random() < 0.5) else 'dtn://src/app2'
+            ts = (9000 + k, j if src == 'dtn://src/app' else 0)
+            ext = [hop_count(2, 9, 1)] + ([unknown(4 + j, j, flags=1)] if rnd.random() < 0.5 else [])
+            style = rnd.choice(['uniform', 'uneven', 'overlap'])
+            pieces = cuts_for(total, style, rnd) if total >= 2 else [(0, total)]
+            frags = []
+            for (o, n) in pieces:
+                fext = ext if o == 0 else [b for b in ext if b['flags'] & 1]
+                frags.append(mk(src=src, dest=PROBE, ts=ts, pay=pay[o:o + n], frag=(o, total), ext=fext,
+                                crc=rnd.choice([0, 1, 2]), flags=F['DLVREP'] if j else 0, rpt='dtn://rpt/r'))
+            base = '%s|%d|%d' % (src, ts[0], ts[1])
+            orig[base] = {'len': total, 'dig': __import__('hashlib').sha256(pay).hexdigest()[:12]}
+            bundles.append((style, frags))
+        # arrival order: any permutation of all fragments of all bundles, with duplicates
+        arrivals = [(bi, fi) for (bi, (_s, frags)) in enumerate(bundles) for fi in range(len(frags))]
+        ndup = rnd.choice([0, 0, 1, 2])
+        arrivals += [rnd.choice(arrivals) for _ in range(ndup)]
+        rnd.shuffle(arrivals)
+        drop = rnd.random() < 0.2      # sometimes one fragment never arrives
+        if drop and len(arrivals) > 1:
+            victim = rnd.choice(arrivals)
+            arrivals = [a for a in arrivals if a != victim]
+        steps = []
+        for (bi, fi) in arrivals:
+            steps.append(('recv', bundles[bi][1][fi], {'note': 'b%d f%d' % (bi, fi)}))
+            if rnd.random() < 0.6:
+                steps.append(('idle',))
+        rx = [(PROBE, 'deliver')]
+        tx = [('dtn://rpt/', 'dtn://rpt/', None)]
+        traces.append(run({'rx_routes': rx, 'tx_routes': tx}, steps, scenario={'orig': orig}))
+        metas.append({'bundles': [[s, len(f)] for (s, f) in bundles], 'arrivals': arrivals, 'dropped_one': drop})
+    return traces, metas
